@@ -358,8 +358,10 @@ func execLife(x *X, base string, ops []Op, or lifeOracles) {
 					}
 				} else {
 					x.Probe("failed-sign-rolled-back")
-					if after != 0 && after != before {
-						bad("sign:failed-count", "failed Sign left %d signatures (had %d)", after, before)
+					// the signing was attempted and refused by validation: the statement says
+					// "a failed signing leaves the envelope unsigned"
+					if after != 0 {
+						bad("sign:failed-but-still-signed", "Sign failed with %v but the envelope still carries %d signature(s) (had %d): a failed signing must leave the envelope unsigned", err, after, before)
 					}
 				}
 				if after == 0 {
